@@ -32,7 +32,8 @@
  *   I<id>,<k>=<t>    insert: A L U push (k ignored); T E set key k -> Ref to t; Y Z set key Ref to t -> k
  *   D<id>,<k>        remove: A L U pop_at index k; T E rem key k; Y Z rem key Ref to node k
  *   K+<id> K-<id>    stack slot holds / drops the pointer
- *   T+<s>=<id> T-<s> thread-local entry "k<s>" set / removed
+ *   T+<s>=<id> T-<s> thread-local entry set / removed; key "k<s>", slots 20..29 = "__x" "_" "" a 200 character key
+ *                    "__session" "__" "__GC2" "__Exceptions" "__G" and a key with spaces
  *   X<id>            explicit del(p); the stack slot is cleared
  *   G                forced collection GC_Mark; GC_Sweep, then observation
  *   H                the same with the stack scan narrowed to the collecting frames (gc->bottom
@@ -291,8 +292,26 @@ static void __attribute__((noinline)) op_remove(long id, long k) {
   p = NULL;
 }
 
+/* thread-local keys of every shape: slots 20.. stand for legal keys that look like the runtime's own ("__GC",
+ * "__Exception" themselves cannot be used: the runtime keeps its collector and exception state under them) */
+static void tls_name(long slot, char* name, size_t n) {
+  switch (slot) {
+    case 20: snprintf(name, n, "__x"); break;
+    case 21: snprintf(name, n, "_"); break;
+    case 22: name[0] = 0; break;
+    case 23: memset(name, 'L', 200); name[200] = 0; break;
+    case 24: snprintf(name, n, "__session"); break;
+    case 25: snprintf(name, n, "__"); break;
+    case 26: snprintf(name, n, "__GC2"); break;
+    case 27: snprintf(name, n, "__Exceptions"); break;
+    case 28: snprintf(name, n, "__G"); break;
+    case 29: snprintf(name, n, "key with spaces / and %%s"); break;
+    default: snprintf(name, n, "k%ld", slot);
+  }
+}
+
 static void __attribute__((noinline)) op_tls(int add, long slot, long t) {
-  char name[32]; snprintf(name, sizeof name, "k%ld", slot);
+  char name[256]; tls_name(slot, name, sizeof name);
   if (add) set(current(Thread), $S(name), nptr(t));
   else rem(current(Thread), $S(name));
 }
